@@ -252,7 +252,7 @@ macro_rules! sinks {
             ks.sort();
             ks.dedup();
             for k in ks {
-                let mut fw = crate::io::FailWriter { got: vec![], cap: k };
+                let mut fw = crate::io::FailWriter::new(k);
                 let fres = { let $b = $mk; let $w = &mut fw; $write };
                 let prefix = fw.got.len() <= k && fw.got[..] == out[..fw.got.len()];
                 faults.push(match &fres {
